@@ -187,6 +187,10 @@ def run_check_locked(P, tier, seed, replay=None, only_tie=None):
         bad = core.forbidden_scan(set(scan_set))
         coverage['coq_files_in_scope'] = scan_set
         targets = [f[:-2] + ".vo" for f in P.PROP_FILES]
+        # everything the extraction files import must be compiled too (lib/ExtractBase.vo and any model
+        # file that only the extraction mentions): it is not reachable from the properties files
+        targets += [f[:-2] + ".vo" for f in scan_set
+                    if not f.startswith(("extract/", "props/")) and f[:-2] + ".vo" not in targets]
         ok, log, mdt = core.coq_make(targets)
         pr = core.coq_props(pid, P.PROP_FILES) if True else None
         thms = pr["theorems"]
